@@ -13,6 +13,7 @@ import (
 
 func init() {
 	register("C16", func(c *core.Ctx, tier string) {
+		jsonpNoBinary(c, "C16.6b")
 		errPolarity(c, "C16.4b", "transports")
 		pollingEffects(c, "C16.8")
 		c16Encoded(c)
@@ -276,7 +277,7 @@ func c16Gate(c *core.Ctx) {
 			// coding from Accept-Encoding through utils.Contains
 			okSrc := false
 			if d, ok := u.SingleDef(comp[0].Arg(1)); ok {
-				if ce, isC := ast.Unparen(d).(*ast.CallExpr); isC && u.CalleeKey(ce) == "utils.Contains" {
+				if ce, isC := ast.Unparen(d).(*ast.CallExpr); isC && (u.CalleeKey(ce) == "transports.acceptedCoding" || u.CalleeKey(ce) == "utils.Contains") {
 					ast.Inspect(ce.Args[0], func(n ast.Node) bool {
 						if e, isE := n.(ast.Expr); isE {
 							if s, isS := core.ConstString(info, e); isS && s == "Accept-Encoding" {
@@ -453,7 +454,7 @@ func c16Codecs(c *core.Ctx) {
 	// offered tokens == case labels
 	if dw := c.Fn(R, "transports.(*polling).DoWrite"); dw != nil {
 		offered := map[string]bool{}
-		for _, cl := range dw.CallsTo("utils.Contains") {
+		for _, cl := range dw.CallsTo("transports.acceptedCoding", "utils.Contains") {
 			if lit, isL := ast.Unparen(cl.Arg(1)).(*ast.CompositeLit); isL {
 				for _, el := range lit.Elts {
 					if s, isS := core.ConstString(dw.Info(), el); isS {
@@ -648,33 +649,66 @@ func c16HeadersFn(c *core.Ctx, R string) {
 	c.Check(R, "transports.(*polling).headers/no-store+emit(headers)-once", u.Pos(), ok, "one headers event per call, same bag returned")
 }
 
-// c16ContainsHelper — C16.3b: the negotiation helper picks a coding only when the header contains its name.
+// c16ContainsHelper — C16.3b: the negotiation helper picks a coding only when the request's Accept-Encoding lists it
+// as a whole token with a non-zero weight (fix e5a0b03: substring matching let `gzip;q=0` and `pack200-gzip` select gzip).
 func c16ContainsHelper(c *core.Ctx) {
 	const R = "C16.3b"
-	c.Rule(R, "utils.Contains(haystack, needles) returns a needle only on the true edge of strings.Contains(haystack, needle) (whole-token substring, not any shared character) and \"\" otherwise, trying the needles in order")
-	u := c.Fn(R, "utils.Contains")
+	c.Rule(R, "transports.acceptedCoding(header, offered): the header is cut at ',' into items and each item at ';' into name and parameters; names are compared as whole, trimmed, lower-cased tokens (a map keyed by the token — no strings.Contains / HasPrefix / Index over the header); an item whose q parameter does not parse to a value > 0 is not accepted; the result is an element of offered, tried in order, on the edge where the token was accepted, and \"\" otherwise")
+	u := c.Fn(R, "transports.acceptedCoding")
 	if u == nil {
 		return
 	}
 	info := u.Info()
 	g := u.Graph()
-	okLoop := false
+	splitComma, cutSemi, substr := false, false, ""
+	qPositive := false
+	for _, x := range u.AllUnits() {
+		for _, cl := range x.Calls() {
+			switch cl.Key {
+			case "strings.Split":
+				if v, ok := core.ConstString(info, cl.Arg(1)); ok && v == "," && isLocal(info, cl.Arg(0), paramName(u, 0)) {
+					splitComma = true
+				}
+			case "strings.Cut":
+				if v, ok := core.ConstString(info, cl.Arg(1)); ok && v == ";" {
+					cutSemi = true
+				}
+			case "strings.Contains", "strings.ContainsAny", "strings.HasPrefix", "strings.HasSuffix", "strings.Index":
+				substr = cl.Key
+			}
+		}
+	}
+	// q > 0 decides acceptance
+	ast.Inspect(u.Body, func(n ast.Node) bool {
+		if be, ok := n.(*ast.BinaryExpr); ok && be.Op == token.GTR {
+			if v, isC := core.ConstInt(info, be.Y); isC && v == 0 {
+				if d, k := u.SingleDef(be.X); k {
+					if te, isT := d.(*core.TupleElem); isT {
+						if ce, isCall := ast.Unparen(te.X).(*ast.CallExpr); isCall && u.CalleeKey(ce) == "strconv.ParseFloat" {
+							qPositive = true
+						}
+					}
+				}
+			}
+		}
+		return true
+	})
+	// result: a range element of `offered` on the accepted edge, "" otherwise
 	var loopVar string
 	ast.Inspect(u.Body, func(n ast.Node) bool {
 		if rs, isR := n.(*ast.RangeStmt); isR && isLocal(info, rs.X, paramName(u, 1)) {
 			if v, isId := rs.Value.(*ast.Ident); isId {
 				loopVar = v.Name
-				okLoop = true
 			}
 		}
 		return true
 	})
-	contains := func(x *core.Unit, br core.Branch) int {
-		ce, isC := ast.Unparen(br.Cond).(*ast.CallExpr)
-		if !isC || x.CalleeKey(ce) != "strings.Contains" || len(ce.Args) != 2 {
+	accepted := func(x *core.Unit, br core.Branch) int {
+		ix, isIx := ast.Unparen(br.Cond).(*ast.IndexExpr)
+		if !isIx || loopVar == "" || !isLocal(x.Info(), ix.Index, loopVar) {
 			return 0
 		}
-		if isLocal(x.Info(), ce.Args[0], paramName(u, 0)) && isLocal(x.Info(), ce.Args[1], loopVar) {
+		if _, isMap := x.Info().TypeOf(ix.X).Underlying().(*types.Map); isMap {
 			return 1
 		}
 		return 0
@@ -684,12 +718,13 @@ func c16ContainsHelper(c *core.Ctx) {
 		if len(r.Stmt.Results) != 1 {
 			continue
 		}
-		if isLocal(info, r.Stmt.Results[0], loopVar) {
-			okRet = g.GuardedBy(r.Loc, contains)
+		if loopVar != "" && isLocal(info, r.Stmt.Results[0], loopVar) {
+			okRet = g.GuardedBy(r.Loc, accepted)
 		}
-		if s, isS := core.ConstString(info, r.Stmt.Results[0]); isS && s == "" {
+		if sv, isS := core.ConstString(info, r.Stmt.Results[0]); isS && sv == "" {
 			okEmpty = true
 		}
 	}
-	c.Check(R, "utils.Contains/needle-iff-strings.Contains", u.Pos(), okLoop && okRet && okEmpty, keyf("ranges over the needles: %v; returns the needle on strings.Contains(haystack, needle): %v; \"\" otherwise: %v", okLoop, okRet, okEmpty))
+	c.Check(R, "transports.acceptedCoding/whole-token-with-non-zero-weight", u.Pos(), splitComma && cutSemi && substr == "" && qPositive && okRet && okEmpty,
+		keyf("items cut at ',': %v; parameters cut at ';': %v; substring test over the header: %q; q parsed and required > 0: %v; an offered coding returned on its accepted edge: %v; \"\" otherwise: %v", splitComma, cutSemi, substr, qPositive, okRet, okEmpty))
 }
